@@ -83,20 +83,21 @@ Record failedTo (s : state) (x : nid) (s' : state) : Prop := {
   ft_fields : next s' = next s /\ stabNum s' = stabNum s /\ setDuring s' = setDuring s /\ setRemoved s' = setRemoved s;
   ft_log : LQ s s';
   ft_hinv : HeapSpec.inv (heap s');
-  ft_heap : forall y, y ∈ Heap.ids (heap s') <-> y = x \/ y ∈ Heap.ids (heap s)
+  ft_heap : forall y, y ∈ Heap.ids (heap s') <-> y = x \/ y ∈ Heap.ids (heap s);
+  ft_handlers : handlers s' = handlers s
 }.
 
 Lemma failedTo_of s x sB s3 l :
   HeapSpec.inv (heap s) -> 0 <= height (nd s x) ->
   (forall y, nd sB y = nd s y) -> (forall y, has sB y <-> has s y) -> binds sB = binds s -> heap sB = heap s ->
   (next sB = next s /\ stabNum sB = stabNum s /\ setDuring sB = setDuring s /\ setRemoved sB = setRemoved s) ->
-  log sB = l ++ log s -> Forall quiet l ->
+  log sB = l ++ log s -> Forall quiet l -> handlers sB = handlers s ->
   heapAddIfNotPresent sB x = Ok s3 ->
-  forall s', nodes s' = nodes s3 -> binds s' = binds s3 -> heap s' = heap s3 ->
+  forall s', nodes s' = nodes s3 -> binds s' = binds s3 -> heap s' = heap s3 -> handlers s' = handlers s3 ->
     (next s' = next s3 /\ stabNum s' = stabNum s3 /\ setDuring s' = setDuring s3 /\ setRemoved s' = setRemoved s3) ->
     LQ s3 s' -> failedTo s x s'.
 Proof.
-  intros I Hh Hnd Hhas Hb Hheap (F1 & F2 & F3 & F4) Hl Hq E3 s' En Eb Eh (G1 & G2 & G3 & G4) Hl'.
+  intros I Hh Hnd Hhas Hb Hheap (F1 & F2 & F3 & F4) Hl Hq HhB E3 s' En Eb Eh Ehd (G1 & G2 & G3 & G4) Hl'.
   assert (IB : HeapSpec.inv (heap sB)) by (rewrite Hheap; exact I).
   destruct (heapAddIfNotPresent_spec0 sB x s3 IB ltac:(rewrite Hnd; exact Hh) E3) as (O3 & I3 & M3 & _).
   constructor.
@@ -106,6 +107,7 @@ Proof.
   - eapply LQ_trans; [|exact Hl']. eapply LQ_trans; [|apply LQ_oh, O3]. exists l. auto.
   - rewrite Eh. exact I3.
   - intros y. rewrite Eh, M3, Hheap. reflexivity.
+  - rewrite Ehd, (oh_handlers _ _ O3). exact HhB.
 Qed.
 
 Lemma rns_failPlan_fail_map x s s' e imm fuel :
@@ -173,6 +175,7 @@ Proof.
   - intros y. unfold sB. rewrite has_upd. unfold sF. rewrite has_updb, has_emit. unfold s1. rewrite has_updb. apply has_upd.
   - repeat split.
   - repeat constructor.
+  - unfold errorHandlers. destruct (nkind (nd s3 b)); reflexivity.
   - unfold errorHandlers. destruct (nkind (nd s3 b)); reflexivity.
   - unfold errorHandlers. destruct (nkind (nd s3 b)); reflexivity.
   - unfold errorHandlers. destruct (nkind (nd s3 b)); reflexivity.
@@ -878,7 +881,8 @@ Proof.
     - rewrite (oh_next _ _ OV), (oh_stabNum _ _ OV), (oh_setDuring _ _ OV), (oh_setRemoved _ _ OV). auto.
     - apply LQ_oh, OV.
     - exact IV0.
-    - intros y. rewrite PV, elem_of_cons. reflexivity. }
+    - intros y. rewrite PV, elem_of_cons. reflexivity.
+    - apply (oh_handlers _ _ OV). }
   destruct (failedTo_LInvC sG x sV PG LG FV) as [LV _].
   assert (HAV : AW sV always) by (apply (AW_nodes sG sV always (oh_nodes _ _ OV) (oh_stabNum _ _ OV) HAG)).
   set (sW := sV <| heap := heap s' |> <| stabNum := stabNum sV + 1 |>).
